@@ -287,13 +287,17 @@ CHILDREN = {
     "lig": lambda: lookup([lig({1: [([2], 3), ([1], 6)], 2: [([1], 3)]})]),
     "ligm": lambda: lookup([lig({1: [([2], 3)], 2: [([2], 3)]})], flags=["mark"]),
     "alt": lambda: lookup([alt({1: [2], 2: [1]})]),
+    # absorbs a following mark (which a parent with IgnoreMarks skipped) into a ligature
+    "ligmk": lambda: lookup([lig({1: [([4], 3)], 2: [([4, 4], 3), ([4], 6)]})]),
+    # looks at the glyph after the current one
+    "lignext": lambda: lookup([lig({3: [([6], 2), ([2], 1)], 6: [([1], 2)], 1: [([2], 3)]})]),
 }
 
 
 def family_ctx(cat, deep=False):
     """GSUB 5 in all three formats: nested actions at every sequence index, length-changing children"""
     pats = [[{1}], [{1}, {2}], [{1}, {1}], [{2}, {1}, {2}], [{1, 2}, {1, 2}]]
-    kids = list(CHILDREN)
+    kids = [k for k in CHILDREN if k != "lignext"]
     for fmt in (1, 2, 3):
         for p in pats:
             if fmt == 1 and any(len(s) != 1 for s in p):
@@ -303,7 +307,8 @@ def family_ctx(cat, deep=False):
                     for idx in range(len(p)):
                         cat.add("ctx", [lookup([ctx([rule(p, [(idx, 2)])], fmt=fmt)], **fl), CHILDREN[kid]()])
                 # two actions
-                for k1, k2 in (("single", "multi"), ("multi", "single"), ("lig", "single"), ("multi", "lig")):
+                for k1, k2 in (("single", "multi"), ("multi", "single"), ("lig", "single"), ("multi", "lig"),
+                               ("ligmk", "lignext"), ("ligmk", "single")):
                     for i1 in range(len(p)):
                         for i2 in range(len(p)):
                             if not deep and (i1, i2) not in ((0, 0), (0, len(p) - 1), (len(p) - 1, 0)):
@@ -322,6 +327,25 @@ def family_ctx(cat, deep=False):
                         lookup([ctx([rule([{1}, {1}], [(1, 3), (0, 3)])])]), CHILDREN["multi"]()])
     cat.add("ctxnest", [lookup([ctx([rule([{1}, {2}], [(1, 2), (0, 2)])])]),
                         lookup([ctx([rule([{1, 2}], [(0, 3)])])]), CHILDREN["single"]()])
+
+
+def family_ctxnest(cat):
+    """contextual lookups nested in contextual lookups, every format combination, actions before and
+    after the nested contextual action; meant to be run on strings long enough for several matches
+    (scratch buffers and stack entries are recycled from the second match on)"""
+    for pf in (1, 2, 3):
+        for cf in (1, 2, 3):
+            for chain in (False, True):
+                for acts in ([(1, 2), (2, 3)], [(0, 3), (1, 2), (2, 3)], [(2, 2), (0, 3)]):
+                    parent = ctx([rule([{1}, {2}, {1}], acts)], fmt=pf)
+                    child = ctx([rule([{2}], [(0, 4)]), rule([{1}], [(0, 4)])], fmt=cf, chain=chain)
+                    cat.add("ctxnest", [lookup([parent]), lookup([child]), lookup([single({1: 6, 2: 5})]),
+                                        lookup([single({1: 2, 2: 1})])])
+    # a nested contextual rule with two input glyphs, followed by another action of the parent
+    for pf in (1, 2, 3):
+        cat.add("ctxnest", [lookup([ctx([rule([{1}, {2}], [(0, 2), (1, 3)])], fmt=pf)]),
+                            lookup([ctx([rule([{1}, {2}], [(1, 4)])], fmt=pf)]),
+                            lookup([single({2: 5, 6: 1})]), lookup([single({2: 6})])])
 
 
 def family_chain(cat):
@@ -413,6 +437,13 @@ def family_malformed(cat):
                                lookup([single({1: 6, 6: 1})]), lookup([single({2: 1})])])
     cat.add("mal-seqidx-mix", [lookup([ctx([rule([{1}, {2}], [(2, 2), (0, 2)]), rule([{2}], [(0, 2), (0, 2)])], fmt=1)]),
                                CHILDREN["single"]()])
+    # the sequence grows by exactly the length of the match while the budget runs out: the scan must
+    # still make progress (termination)
+    cat.add("mal-growloop", [lookup([ctx([rule([{1}], [(0, 2)] + [(0, 3)] * 70)])]),
+                             lookup([multi({1: [1, 1]})]), lookup([single({6: 6})])])
+    cat.add("mal-growloop", [lookup([ctx([rule([{1}], [(0, 2), (7, 2)])], fmt=1)]), lookup([multi({1: [2, 1]})])])
+    cat.add("mal-growloop", [lookup([ctx([rule([{1}, {2}], [(0, 2), (1, 2), (9, 2)])], fmt=2)]),
+                             lookup([multi({1: [1, 2], 2: [1, 2]})])])
     for chain in (False, True):
         cat.add("mal-classidx", [lookup([ctx([rule([{1}, {2}], [(0, 2)]), rule([{2}], [(0, 2)])], fmt=2, chain=chain,
                                              trunc={2})]), CHILDREN["single"]()])
@@ -421,7 +452,7 @@ def family_malformed(cat):
 
 FAMILIES = {
     "simple": family_simple, "lig": family_lig, "order": family_order, "ctx": family_ctx,
-    "chain": family_chain, "gpos": family_gpos, "malformed": family_malformed,
+    "chain": family_chain, "gpos": family_gpos, "malformed": family_malformed, "ctxnest": family_ctxnest,
 }
 
 
